@@ -375,6 +375,16 @@ func R8(pkgs ...string) func(p *core.Prog) *core.Result {
 					}
 				}
 			}
+			// (g) the check pops an open state only after having matched its kind explicitly
+			{
+				k := &finPopClient{p: p, fn: fin}
+				WalkPaths[finPopState](k, fin.Blocks[0], 0, finPopState{}, 200000, nil)
+				if k.bad == "" {
+					r.Ok(".FINALIZER-POPS", p.Pos(fin.Pos()), core.FuncKey(fin)+": an open state is popped at end of input only in an explicit arm for a state that may legitimately be open")
+				} else {
+					r.Fail(".FINALIZER-POPS", core.FuncKey(fin)+"|pop", p.Pos(fin.Pos()), core.FuncKey(fin)+" "+k.bad, "")
+				}
+			}
 			// (a) fixpoint over the one-shot functions
 			finSet := map[*ssa.Function]bool{}
 			verdict := map[*ssa.Function]map[string]string{}
@@ -493,4 +503,52 @@ func condInspectsStateStack(cond ssa.Value) bool {
 		}
 	}
 	return false
+}
+
+// finPopClient: in finalize, a pop of the state stack must follow an explicit
+// match of the open state's kind (a comparison of a parser-state enum value
+// with a constant that came out true) in the same loop iteration.
+type finPopState struct{ matched bool }
+type finPopClient struct {
+	p   *core.Prog
+	fn  *ssa.Function
+	bad string
+}
+
+func (k *finPopClient) Key(s finPopState) string { return fmt.Sprint(s.matched) }
+func (k *finPopClient) Phis(s finPopState, blk *ssa.BasicBlock, pred int) finPopState {
+	for pi := range blk.Preds {
+		if isBackEdge(blk, pi) {
+			s.matched = false // a new iteration looks at a new open state
+			break
+		}
+	}
+	return s
+}
+func (k *finPopClient) Return(finPopState, *ssa.Return) {}
+func (k *finPopClient) Instr(s finPopState, in ssa.Instruction) (finPopState, bool, []finPopState) {
+	c, ok := in.(*ssa.Call)
+	if !ok {
+		return s, true, nil
+	}
+	sc := c.Common().StaticCallee()
+	if sc == nil {
+		return s, true, nil
+	}
+	if sc.Name() == "popState" || sc.Name() == "popLenState" || (sc.Name() == "pop" && sc.Signature.Recv() != nil && namedOf(sc.Signature.Recv().Type()) != nil && namedOf(sc.Signature.Recv().Type()).Obj().Name() == "stateStack") {
+		if !s.matched {
+			k.bad = "pops an open parser state at " + k.p.Pos(c.Pos()) + " without having matched its kind: any unfinished value or unterminated container that happens to be open at end of input is silently discarded and the truncated document accepted"
+		}
+	}
+	return s, true, nil
+}
+func (k *finPopClient) Branch(s finPopState, cond ssa.Value, outcome bool) (finPopState, bool) {
+	if bo, ok := cond.(*ssa.BinOp); ok && bo.Op == token.EQL && outcome {
+		if n, ok := bo.X.Type().(*types.Named); ok && n.Obj().Pkg() == core.FuncPkg(k.fn) {
+			if _, isC := bo.Y.(*ssa.Const); isC {
+				s.matched = true
+			}
+		}
+	}
+	return s, true
 }
